@@ -26,6 +26,37 @@ LAST = "x-koreo-compare-last-applied"
 DIRECTIVES = {SET, MAP, LAST}
 LAST_APPLIED = "koreo.dev/last-applied-configuration"
 
+# --------------------------------------------------------------------------- module constants (invariant)
+
+def constants_fingerprint() -> dict:
+    """every module-level constant of koreo.constants, canonically (sets sorted)"""
+    from koreo import constants
+
+    out = {}
+    for k in sorted(vars(constants)):
+        if not k.isupper():
+            continue
+        v = getattr(constants, k)
+        out[k] = sorted(map(repr, v)) if isinstance(v, (set, frozenset)) else repr(v)
+    return out
+
+
+_CONST_BASELINE = constants_fingerprint()      # taken when the harness is imported, before any koreo call
+
+
+def constants_changed():
+    """None, or a description of how koreo.constants differs from the last accepted state (reported once:
+    the new state becomes the baseline, so one change does not flood the run)"""
+    global _CONST_BASELINE
+    now = constants_fingerprint()
+    if now == _CONST_BASELINE:
+        return None
+    diff = {k: (_CONST_BASELINE.get(k), now.get(k)) for k in sorted(set(now) | set(_CONST_BASELINE))
+            if now.get(k) != _CONST_BASELINE.get(k)}
+    _CONST_BASELINE = now
+    return "koreo.constants changed while running: " + "; ".join(f"{k}: {a} -> {b}" for k, (a, b) in diff.items())
+
+
 # --------------------------------------------------------------------------- values
 
 SCALARS = [None, True, False, 0, 1, 2, -1, 7, 2 ** 40, 0.5, 1.0, 2.0, 1.5, -0.125, "", "a", "b", "A", "ab",
@@ -490,6 +521,10 @@ def resource_function_spec(r):
         meta["annotations"] = {"team": r.choice(SAFE_STR)}
     if r.random() < 0.3:
         meta["labels"] = {"app": r.choice(SAFE_STR)}
+    if r.random() < 0.35:
+        # the target names owners itself (the runner's own owner is never applied: namespaces differ)
+        meta["ownerReferences"] = [{"apiVersion": "v1", "kind": "Owner", "name": f"owner{i}", "uid": f"uid-{i}"}
+                                   for i in range(r.choice([1, 1, 2]))]
     spec_body = {"payload": "=inputs.payload", "fixed": {"n": r.choice([1, 2]), "flag": r.choice([True, False]),
                                                             "list": [1, 2, 3]}}
     if r.random() < 0.4:
